@@ -183,6 +183,18 @@ static std::string stripPrefix(const std::string &s, const std::string &p)
     return (!p.empty() && s.rfind(p, 0) == 0) ? s.substr(p.size()) : s;
 }
 
+static bool owningModelIs(const VariablePtr &v, const ModelPtr &m)
+{
+    ParentedEntityPtr p = v->parent();
+    while (p) {
+        if (p == m) {
+            return true;
+        }
+        p = p->parent();
+    }
+    return false;
+}
+
 // classification summary: model type + per analyser variable (class name, component, type, kind/index)
 static J summarise(const AnalyserModelPtr &am, const std::string &prefix, bool full)
 {
@@ -267,8 +279,185 @@ static bool closeTo(double obs, double exp, double tol)
     return !std::isnan(obs) && std::fabs(obs - exp) <= tol * std::max(1.0, std::fabs(exp));
 }
 
+// C20: the system is analysed without and with the marks of the scenario; the marked analysis is generated, and run
+// in two steps with a callback returning the values the specification chose for each external class.
+static void extDrv(const J &sc, Emitter &out)
+{
+    const J &sys = sc["sys"];
+    J ev = J::obj();
+    ev.set("e", "ext").set("sys", sys).set("expect", sc["expect"]);
+    Variant vr;
+    std::string text = writeModel(sys, vr, J());
+    std::map<std::string, std::string> home;
+    for (auto &c : sys["classes"].a) {
+        home[c["name"].str()] = c["home"].str();
+    }
+    home["u"] = "A";
+    auto model = Parser::create(true)->parseModel(text);
+    auto other = Parser::create(true)->parseModel(text);
+    auto validator = Validator::create();
+    validator->validateModel(model);
+    ev.set("validErrors", J(validator->errorCount()));
+    {
+        auto analyser = Analyser::create();
+        analyser->analyseModel(model);
+        J s = summarise(analyser->model(), "", true);
+        s.set("analyserErrors", J(analyser->errorCount()));
+        ev.set("plain", s);
+    }
+    auto analyser = Analyser::create();
+    J applied = J::arr();
+    std::map<std::string, AnalyserExternalVariablePtr> firstOf;
+    for (auto &mk : sys["marks"].a) {
+        std::string n = mk["name"].str();
+        VariablePtr v;
+        if (n == "foreign") {
+            v = other->componentCount() > 0 ? other->component(0)->variable(0) : nullptr;
+        } else {
+            auto comp = model->component(mk["comp"].str());
+            v = comp ? comp->variable(n) : nullptr;
+        }
+        J a = J::obj();
+        a.set("name", n).set("comp", mk["comp"]).set("found", J(v != nullptr));
+        if (v) {
+            auto xv = AnalyserExternalVariable::create(v);
+            J depOk = J::arr();
+            for (auto &d : mk["deps"].a) {
+                auto dc = model->component(home[d.str()]);
+                auto dv = dc ? dc->variable(d.str()) : nullptr;
+                depOk.push(J(dv != nullptr && xv->addDependency(dv)));
+            }
+            a.set("depsAdded", depOk).set("added", J(analyser->addExternalVariable(xv)));
+        }
+        applied.push(a);
+    }
+    ev.set("applied", applied);
+    analyser->analyseModel(model);
+    auto am = analyser->model();
+    J s = summarise(am, "", true);
+    s.set("analyserErrors", J(analyser->errorCount())).set("analyserWarnings", J(analyser->warningCount())).set("alog", loggerObs(analyser));
+    J msgs = J::arr();
+    for (size_t i = 0; i < analyser->issueCount(); ++i) {
+        auto is = analyser->issue(i);
+        if (is->level() == Issue::Level::WARNING && is->referenceRule() == Issue::ReferenceRule::ANALYSER_UNITS) {
+            continue;
+        }
+        J m = J::obj();
+        auto iv = is->item() ? is->item()->variable() : nullptr;
+        auto ic = iv ? std::dynamic_pointer_cast<Component>(iv->parent()) : nullptr;
+        m.set("level", std::string(is->level() == Issue::Level::ERROR ? "E" : is->level() == Issue::Level::WARNING ? "W" : "M")).set("rule", ruleName(is)).set("var", iv ? iv->name() : "none").set("comp", ic ? ic->name() : "none")
+            .set("own", J(iv && owningModelIs(iv, model)));
+        msgs.push(m);
+    }
+    s.set("issues", msgs);
+    if (analyser->errorCount() > 0) {
+        s.set("firstError", tok(analyser->error(0)->description()).substr(0, 240));
+    }
+    ev.set("marked", s);
+    if (am && am->isValid()) {
+        auto gen = Generator::create();
+        gen->setModel(am);
+        std::string h = gen->interfaceCode();
+        std::string c = gen->implementationCode();
+        gen->setProfile(GeneratorProfile::create(GeneratorProfile::Profile::PYTHON));
+        std::string py = gen->implementationCode();
+        auto expOf = [&](const std::string &name) -> const J * {
+            for (auto &e : sc["expect"].a) {
+                if (e["name"].str() == name) {
+                    return &e;
+                }
+            }
+            return nullptr;
+        };
+        ExtPlan plan;
+        std::map<long, std::string> nameOfVar, nameOfState;
+        for (auto &av : s["vars"].a) {
+            long idx = static_cast<long>(av["index"].num());
+            if (av["kind"].str() == "v") {
+                nameOfVar[idx] = av["name"].str();
+                if (av["type"].str() == "external") {
+                    const J *e = expOf(av["name"].str());
+                    std::string comp = av["comp"].str();
+                    plan.values[idx] = {e ? q((*e)[comp]) : -1.0, e ? q((*e)[comp + "2"]) : -2.0};
+                }
+            } else if (av["kind"].str() == "s") {
+                nameOfState[idx] = av["name"].str();
+            }
+        }
+        GenRun rc = runGeneratedC(h, c, &plan);
+        GenRun rp = runGeneratedPython(py, &plan);
+        ev.set("c", genRunToJson(rc)).set("py", genRunToJson(rp));
+        ev.set("usesCallback", J(h.find("ExternalVariable") != std::string::npos)).set("pyUsesCallback", J(py.find("external_variable") != std::string::npos));
+        J flags = J::arr();
+        for (auto &av : s["vars"].a) {
+            if (av["kind"].str() == "voi") {
+                continue;
+            }
+            J f = J::obj();
+            f.set("name", av["name"]).set("comp", av["comp"]).set("type", av["type"]);
+            const J *e = expOf(av["name"].str());
+            size_t idx = static_cast<size_t>(av["index"].num());
+            bool isState = av["kind"].str() == "s";
+            auto at = [&](const std::vector<double> &v) { return idx < v.size() ? v[idx] : NAN; };
+            std::string comp = av["comp"].str();
+            if (e) {
+                double w1 = q((*e)[comp]), w2 = q((*e)[comp + "2"]);
+                bool ok1 = closeTo(at(isState ? rc.states : rc.variables), w1, 1e-9) && closeTo(at(isState ? rp.states : rp.variables), w1, 1e-9);
+                bool ok2 = closeTo(at(isState ? rc.states2 : rc.variables2), w2, 1e-9) && closeTo(at(isState ? rp.states2 : rp.variables2), w2, 1e-9);
+                if (!rc.variables2.size() && !rc.states2.size()) { // no callback in the generated code: no second step was run
+                    ok2 = closeTo(w1, w2, 1e-12);
+                }
+                if (isState) {
+                    double r1 = q((*e)["rate"]), r2 = q((*e)["rate2"]);
+                    ok1 = ok1 && closeTo(at(rc.rates), r1, 1e-9) && closeTo(at(rp.rates), r1, 1e-9);
+                    if (rc.states2.size()) {
+                        ok2 = ok2 && closeTo(at(rc.rates2), r2, 1e-9) && closeTo(at(rp.rates2), r2, 1e-9);
+                    }
+                }
+                f.set("known", J(true)).set("ok1", J(ok1)).set("ok2", J(ok2));
+            } else if (av["name"].str() == "u" || av["name"].str() == "w") { // the implicit unknown, not marked: u = 4
+                bool ok = closeTo(at(rc.variables), 4.0, 1e-6) && closeTo(at(rp.variables), 4.0, 1e-6);
+                bool okb = !rc.variables2.size() || (closeTo(at(rc.variables2), 4.0, 1e-6) && closeTo(at(rp.variables2), 4.0, 1e-6));
+                f.set("known", J(true)).set("ok1", J(ok)).set("ok2", J(okb));
+            } else {
+                f.set("known", J(false)).set("ok1", J(false)).set("ok2", J(false));
+            }
+            char buf[96];
+            snprintf(buf, sizeof buf, "%.12g / %.12g", at(isState ? rc.states : rc.variables), at(isState ? rc.states2 : rc.variables2));
+            f.set("obsC", std::string(buf));
+            flags.push(f);
+        }
+        ev.set("values", flags);
+        // callback invocations, slots translated to class names
+        auto calls = [&](const GenRun &r) {
+            J a = J::arr();
+            for (auto &cl : r.extCalls) {
+                J o = J::obj();
+                o.set("phase", J(cl.phase)).set("name", nameOfVar.count(cl.index) ? nameOfVar[cl.index] : std::string("?"));
+                J d = J::arr();
+                for (int k : cl.definedVariables) {
+                    if (k >= 0 && nameOfVar.count(k)) {
+                        d.push(nameOfVar[k]);
+                    } else if (k < 0 && nameOfState.count(-1 - k)) {
+                        d.push(nameOfState[-1 - k]);
+                    }
+                }
+                o.set("defined", d);
+                a.push(o);
+            }
+            return a;
+        };
+        ev.set("callsC", calls(rc)).set("callsPy", calls(rp));
+    }
+    out.emit(ev);
+}
+
 static void systemDrv(const J &sc, Emitter &out)
 {
+    if (sc["ext"].boolean(false)) {
+        extDrv(sc, out);
+        return;
+    }
     const J &sys = sc["sys"];
     J ev = J::obj();
     ev.set("e", "system").set("sys", sys).set("run", sc["run"]).set("expect", sc["expect"]);
